@@ -165,6 +165,8 @@ def catalogue_case(draw, names=CAT_QUICK):
         "hf": draw(st.sampled_from(HFS)),
         "key": draw(st.one_of(st.sampled_from(["1", "2", "n-1", "n-2", "(n+1)/2"]), st.integers(1, 2**600).map(str))),
         "msg": draw(st.binary(max_size=80)).hex(),
+        # a digest handed in directly (the *_ entry points take one): values at the edges of the reduction mod n
+        "digest": draw(st.sampled_from([None, None, None, "0", "1", "n-1", "n", "n+1", "max", "2n-1", "2n", "2n+1"])),
         "lower_s": draw(st.booleans()),
         "backend": draw(st.booleans()) if name == "secp256k1" else False,
         "blind_seed": draw(st.integers(0, 2**32)),
@@ -184,6 +186,16 @@ def check_catalogue(case):
     q = _key(case["key"], n)
     msg = bytes.fromhex(case["msg"])
     mh = hf(msg).digest()
+    dg = case.get("digest")
+    if dg is not None:
+        hl = len(mh)
+        v = {"0": 0, "1": 1, "n-1": n - 1, "n": n, "n+1": n + 1, "max": 2 ** (8 * hl) - 1, "2n-1": 2 * n - 1, "2n": 2 * n, "2n+1": 2 * n + 1}[dg]
+        # place the value in the leftmost nlen bits of the digest (what bits2int reads), when it fits
+        shift = max(0, 8 * hl - ec.nlen)
+        if dg != "max" and v.bit_length() <= min(ec.nlen, 8 * hl):
+            mh = (v << shift).to_bytes(hl, "big")
+        elif dg == "max":
+            mh = b"\xff" * hl
     c = eref.challenge(mh, n)
     lower_s = case["lower_s"]
     Q = ref.mult(q, ec.G, ec.p, ec._a, n)
@@ -197,10 +209,11 @@ def check_catalogue(case):
         sig = dsa.sign_(mh, q, None, lower_s, ec, hf, grind=False)
         if (sig.r, sig.s) != want[:2]:
             raise Violation(f"catalogue:rfc6979-signature-differs:bindings={case['backend']}", f"{tag} q={q} msg={msg.hex()} lib={(sig.r, sig.s)} ref={want[:2]}")
-        sig_m = dsa.sign(msg, q, None, lower_s, ec, hf, grind=False)
-        if sig_m != sig:
-            raise Violation("catalogue:sign-vs-sign_", tag)
-        if not dsa.verify_(mh, Q, sig, hf) or not dsa.verify(msg, Q, sig, hf):
+        if dg is None:
+            sig_m = dsa.sign(msg, q, None, lower_s, ec, hf, grind=False)
+            if sig_m != sig:
+                raise Violation("catalogue:sign-vs-sign_", tag)
+        if not dsa.verify_(mh, Q, sig, hf) or (dg is None and not dsa.verify(msg, Q, sig, hf)):
             raise Violation(f"catalogue:own-signature-does-not-verify:bindings={case['backend']}", tag)
         if not eref.verify(c, Q, sig.r, sig.s, curve):
             raise Violation("catalogue:own-signature-fails-SEC1", tag)
